@@ -125,9 +125,17 @@ func (c *core) execFunc() (*Response, error) {
 		}
 		return resp, nil
 	case <-c.ctx.Done():
-		atomic.SwapInt32(&done, 1)
-		ReleaseResponse(resp)
-		return nil, ErrTimeoutOrCancel
+		if atomic.CompareAndSwapInt32(&done, 0, 1) {
+			ReleaseResponse(resp)
+			return nil, ErrTimeoutOrCancel
+		}
+		// The request goroutine completed first and is handing its result over: the response
+		// and the channel must not go back to their pools under it. Take what it delivers.
+		if err := <-errCh; err != nil {
+			ReleaseResponse(resp)
+			return nil, err
+		}
+		return resp, nil
 	}
 }
 
